@@ -723,6 +723,25 @@ func ruleBM25Deltas(r *Run, rule string, k *textKind) {
 					}
 				}
 			}
+			// … or before the emptiness test, on every way to it (the recomputation itself yields 0 for an empty index)
+			if !liveOK {
+				for _, ls := range liveSuccs {
+					if len(ls.Preds) == 0 {
+						continue
+					}
+					testBlk := ls.Preds[0]
+					for _, b := range purge.Blocks {
+						if !(b == testBlk || b.Dominates(testBlk)) {
+							continue
+						}
+						for _, in := range b.Instrs {
+							if recomputes(in) {
+								liveOK = true
+							}
+						}
+					}
+				}
+			}
 			if !liveOK && detail == "" {
 				detail = "while documents remain the average length is not recomputed"
 			}
